@@ -9,6 +9,8 @@ include!(concat!(env!("GEO_VERIF_DIR"), "/contracts/kani/common.rs"));
 include!(concat!(env!("GEO_VERIF_DIR"), "/contracts/kani/spec.rs"));
 include!(concat!(env!("GEO_VERIF_DIR"), "/contracts/kani/geo/c02.rs"));
 include!(concat!(env!("GEO_VERIF_DIR"), "/contracts/kani/geo/c13.rs"));
+include!(concat!(env!("GEO_VERIF_DIR"), "/contracts/kani/geo/c05.rs"));
+include!(concat!(env!("GEO_VERIF_DIR"), "/contracts/kani/geo/c11.rs"));
 
 #[cfg(kani)]
 include!(concat!(env!("GEO_VERIF_DIR"), "/.work/playback/geo.rs"));
